@@ -595,19 +595,58 @@ pub fn outline_entry(
                 }
             }
             let mut terms: Vec<fol::GeneralTerm> = vs.iter().cloned().map(fol::GeneralTerm::from).collect();
-            match rng.below(40) {
-                0 if !terms.is_empty() => terms[0] = fol::GeneralTerm::IntegerTerm(fol::IntegerTerm::Numeral(1)),
-                1 if !vs.is_empty() => vs.push(vs[0].clone()),
-                2 => vs.push(fol::Variable { name: "W".into(), sort: fol::Sort::General }),
-                3 if terms.len() >= 2 => terms[1] = terms[0].clone(),
-                4 if !vs.is_empty() => vs[0].sort = fol::Sort::Integer,
-                _ => {}
+            // the relation between the quantifier list and the head's argument list is what makes a
+            // definition a definitional extension (closed; every quantified variable among the distinct
+            // head variables): a quarter of the definitions get it perturbed - a repeated head variable
+            // with the quantifier list unchanged (a quantified variable is left to the body only) or
+            // shortened (still conservative: `forall X (aux(X,X) <-> F(X))`), a head argument dropped,
+            // an extra / duplicated quantified variable, permutations of either list, a head variable
+            // that is not quantified, a non-variable argument, a sort change
+            if rng.chance(25) {
+                match rng.below(12) {
+                    0 if !terms.is_empty() => terms[0] = fol::GeneralTerm::IntegerTerm(fol::IntegerTerm::Numeral(1)),
+                    1 if !vs.is_empty() => vs.push(vs[0].clone()),
+                    2 => vs.push(fol::Variable { name: "W".into(), sort: fol::Sort::General }),
+                    3 | 4 if terms.len() >= 2 => {
+                        // repeated head variable, same number of quantified variables
+                        let i = rng.below(terms.len());
+                        let j = (i + 1 + rng.below(terms.len() - 1)) % terms.len();
+                        terms[j] = terms[i].clone();
+                    }
+                    5 if terms.len() >= 2 => {
+                        // repeated head variable, the variable it replaces is no longer quantified
+                        let i = rng.below(terms.len());
+                        let j = (i + 1 + rng.below(terms.len() - 1)) % terms.len();
+                        terms[j] = terms[i].clone();
+                        vs.remove(j);
+                    }
+                    6 if !vs.is_empty() => vs[0].sort = fol::Sort::Integer,
+                    7 if terms.len() >= 2 => terms.reverse(),
+                    8 if vs.len() >= 2 => vs.reverse(),
+                    9 if !terms.is_empty() => {
+                        // a head argument dropped: the quantified variable occurs in the body only
+                        let i = rng.below(terms.len());
+                        terms.remove(i);
+                    }
+                    10 if !vs.is_empty() => {
+                        // a head variable that is not quantified
+                        let i = rng.below(vs.len());
+                        vs.remove(i);
+                    }
+                    11 if !terms.is_empty() => {
+                        // one more head argument: a repeated or a new variable
+                        let t = if rng.chance(60) { terms[0].clone() } else { fol::GeneralTerm::Variable("W".into()) };
+                        terms.push(t);
+                    }
+                    _ => {}
+                }
             }
+            let arity_now = terms.len();
             let lhs = fol::Formula::AtomicFormula(fol::AtomicFormula::Atom(fol::Atom { predicate_symbol: p.to_string(), terms }));
             let body = bin(if rng.chance(95) { fol::BinaryConnective::Equivalence } else { fol::BinaryConnective::Implication }, lhs, rhs);
             let f = if vs.is_empty() && rng.chance(70) { body } else { forall(vs, body) };
-            if !defined.iter().any(|(q, m)| q == p && *m == n) && fresh.contains(&(p, n)) {
-                defined.push((p.to_string(), n));
+            if !defined.iter().any(|(q, m)| q == p && *m == arity_now) && fresh.contains(&(p, n)) {
+                defined.push((p.to_string(), arity_now));
             }
             fol::AnnotatedFormula { role: fol::Role::Definition, direction: dir, name, formula: f }
         }
